@@ -198,7 +198,7 @@ struct H
     add(CLEAR);
     for(size_t k = 0; k < lits.size(); ++k) add(SETLIT, (int)k);
     for(int j = 0; j < 3; ++j) add(ASSIGN, j);
-    for(int j = 1; j < 3; ++j) { add(COPYCTOR, j); add(SWAP, j); }
+    for(int j = 1; j < 3; ++j) { add(COPYCTOR, j); add(SWAP, j); add(SWAP, j, 1); }
     add(SWAP, 0);
     add(STRAPPEND);
     for(int j = 1; j < 3; ++j) // j = 0 (inserting a Variant into its own payload) is user-level aliasing outside the statement
@@ -286,7 +286,7 @@ struct H
     }
     case ASSIGN: { Variant& b = *v[o.x]; LIB(a = b); ma = m[o.x]; break; }
     case COPYCTOR: { Variant* n = 0; LIB(n = new Variant(*v[o.x])); LIB(delete v[0]); v[0] = n; ma = m[o.x]; break; }
-    case SWAP: { Variant& b = *v[o.x]; LIB(a.swap(b)); std::swap(m[0], m[o.x]); break; }
+    case SWAP: { Variant& b = *v[o.x]; if(o.y) LIB(b.swap(a)); else LIB(a.swap(b)); std::swap(m[0], m[o.x]); break; }
     case STRAPPEND: LIB(a.toString().append("x", 1)); ma = vstr(mString(ma) + "x"); break;
     case MUTSTRING: LIB(a.toString()); ma = vstr(mString(ma)); break;
     case MUTLIST: LIB(a.toList()); ma = asList(ma, Variant::listType); break;
